@@ -1,6 +1,7 @@
 from __future__ import annotations
 
 import ast
+import collections
 import copy
 import itertools
 import re
@@ -155,6 +156,18 @@ def safe_callable_names(root: ast.Module) -> Collection[str]:
         Collection[str]: Names of all functions that have no side effect when called.
     """
     defined_names = {node.id for node in core.walk(root, ast.Name(ctx=ast.Store))}
+    # A name that is bound in more than one place may be something else where it is called
+    bindings = collections.Counter()
+    for node in ast.walk(root):
+        if isinstance(node, (ast.FunctionDef, ast.AsyncFunctionDef, ast.ClassDef)):
+            bindings[node.name] += 1
+        elif isinstance(node, ast.arg):
+            bindings[node.arg] += 1
+        elif isinstance(node, ast.alias):
+            bindings[(node.asname or node.name).split(".")[0]] += 1
+        elif isinstance(node, ast.ExceptHandler) and node.name:
+            bindings[node.name] += 1
+    defined_names.update(name for name, count in bindings.items() if count > 1)
     function_defs = list(core.walk(root, (ast.FunctionDef, ast.AsyncFunctionDef)))
     safe_callables = set(constants.SAFE_CALLABLES)
     safe_callable_nodes = set()
@@ -162,7 +175,8 @@ def safe_callable_names(root: ast.Module) -> Collection[str]:
     while changes:
         changes = False
         for node in function_defs:
-            if node.name in defined_names:
+            # What a decorator returns is called instead of the function
+            if node.name in defined_names or node.decorator_list:
                 continue
             nonreturn_children = []
             for child in node.body:
@@ -187,6 +201,9 @@ def safe_callable_names(root: ast.Module) -> Collection[str]:
         function_defs = [node for node in function_defs if node.name not in safe_callables]
 
     for node in core.walk(root, ast.ClassDef):
+        # Base classes, metaclasses and decorators may do anything when an instance is created
+        if node.name in defined_names or node.bases or node.keywords or node.decorator_list:
+            continue
         constructors = {
             child
             for child in node.body
